@@ -26,6 +26,9 @@ import control.flatsys as fs
 from core.runner import Family, Verdict, AGREE, VIOLATES, DIFFERS
 from core import exact, exmat
 from core.exact import fr, tok
+# >>> C20-multi (user-defined flat systems with several flat outputs: families/c20_multi.py)
+from families import c20_multi
+# <<< C20-multi
 
 TOL = Fraction(1, 10 ** 6)        # regime T (solve / lstsq); observed worst error ~1e-10
 NINTERIOR = 3
@@ -166,6 +169,9 @@ class C20(Family):
     # run and proved equal to the model `Basis.evalDeriv?`
     extra_modules = ["CtrlVerif.Props.C20Cert",    # the construction always passes its certificate
                      "CtrlVerif.Props.C20Gen"]
+    # >>> C20-multi (user-defined flat systems with several flat outputs: families/c20_multi.py)
+    extra_modules = extra_modules + ["CtrlVerif.Props.C20Multi"]   # several flat outputs, any flag lengths
+    # <<< C20-multi
 
     def pre_build(self):
         import os
@@ -193,9 +199,41 @@ class C20(Family):
             "default basis with 2(n+1)..2(n+1)+3 coefficients (plus too-small bases); a case is "
             "non-trivial when the system has order >= 2, is reachable and the state/input data are "
             "not all zero; distinct = distinct canonical serialisation")
+    # >>> C20-multi (user-defined flat systems with several flat outputs: families/c20_multi.py)
+    rule = rule + (
+        "; multi-output part: user-defined flat systems FlatSystem(forward, reverse[, updfcn]) with 1..3 flat "
+        "outputs, chains of 0..3 states per output (flag lengths 1..5, mostly DIFFERENT between the "
+        "outputs, optionally one redundant flag entry), 1..5 states, seen through unimodular integer and "
+        "triangular quadratic changes of state / input coordinates (forward, reverse, dynamics are "
+        "polynomial maps of degree <= 4 with dyadic coefficients, computed symbolically); bases with "
+        "2 max(len)..2 max(len)+3 coefficients per output, plus bases that fail the size test, bases "
+        "that pass it but are too small for one output (warning branch) and T0 = Tf; B-spline bases with "
+        "a shared variable or one variable per output; non-trivial = at least two flat outputs and "
+        "non-zero data")
+    assumptions = [a.replace(" and user-defined nonlinear flat systems are outside the model",
+                             " are outside the model (user-defined flat systems: polynomial maps only, "
+                             "see the multi-output part)")
+                   .replace("point_to_point with T0 = Tf (rank-deficient boundary system, warning branch) is not "
+                            "generated", "point_to_point with T0 = Tf (rank-deficient boundary system, warning "
+                            "branch) is generated in the multi-output part only")
+                   for a in assumptions] + [
+        "multi-output part: the same horizons / conditioning guard cond(M) <= 1e5 on the block-diagonal "
+        "boundary matrix; a rank-deficient boundary system (some output with fewer than 2 len_i "
+        "coefficients, or T0 = Tf) is only checked for the warning the code emits, its least-squares "
+        "result is not modelled",
+        "multi-output part: mutual inverseness of the generated forward / reverse maps and their "
+        "consistency with the generated dynamics are established symbolically by the harness "
+        "(c20_multi.selftest), in Lean they are hypotheses of the theorems"]
+    externals = externals + [
+        "scipy.optimize.minimize / scipy.linalg.null_space (point_to_point with cost or constraints, "
+        "multi-output part): not modelled, the returned trajectory is validated (end points, dynamics)"]
+    # <<< C20-multi
 
     def __init__(self):
         self._cache = {}
+        # >>> C20-multi (user-defined flat systems with several flat outputs: families/c20_multi.py)
+        self.multi = c20_multi.Multi()
+        # <<< C20-multi
 
     # ---- generation -------------------------------------------------------
     def rq(self, rng):
@@ -293,7 +331,11 @@ class C20(Family):
 
     def generate(self, rng, tier):
         n = 500 if tier == "quick" else 4000
-        return [self.gen_case(rng, tier) for _ in range(n)]
+        cases = [self.gen_case(rng, tier) for _ in range(n)]
+        # >>> C20-multi (user-defined flat systems with several flat outputs: families/c20_multi.py)
+        cases += self.multi.generate(rng, tier)
+        # <<< C20-multi
+        return cases
 
     def corpus(self):
         s2 = {"dt": "C", "p": 1, "m": 1, "n": 2, "A": ["1", "1", "0", "1"], "B": ["1", "2"], "C": ["1", "0"]}
@@ -310,6 +352,9 @@ class C20(Family):
             {"sys": s2, "fr": {"x": ["1", "2"], "u": "3", "z": ["1", "2", "3"]}, "p2p": pp("P", 6, "1")},
             {"sys": s2, "fr": {"x": ["1", "2"], "u": "3", "z": ["1", "2", "3"]}, "p2p": pp("B", 8, "2")},
             c3,
+        # >>> C20-multi (user-defined flat systems with several flat outputs: families/c20_multi.py)
+        ] + self.multi.corpus() + [
+        # <<< C20-multi
         ]
 
     # ---- execution ----------------------------------------------------------
@@ -319,6 +364,10 @@ class C20(Family):
         return "flat %s 1 1 %d %s %s" % (s["dt"], s["n"], " ".join(s["A"]), " ".join(s["B"])), True
 
     def line(self, case):
+        # >>> C20-multi (user-defined flat systems with several flat outputs: families/c20_multi.py)
+        if case.get("kind") == "multi":
+            return self.multi.line(case)
+        # <<< C20-multi
         s = case["sys"]
         pre, full = self.sys_prefix(s)
         if not full:
@@ -336,6 +385,10 @@ class C20(Family):
         return " ".join(line.split())
 
     def impl(self, case):
+        # >>> C20-multi (user-defined flat systems with several flat outputs: families/c20_multi.py)
+        if case.get("kind") == "multi":
+            return self.multi.impl(case)
+        # <<< C20-multi
         s = case["sys"]
         n = s["n"]
         out = {}
@@ -418,6 +471,10 @@ class C20(Family):
             return {"err": classify_exc(e), "exc": "%s: %s" % (type(e).__name__, str(e)[:160])}
 
     def parse_model(self, case, out):
+        # >>> C20-multi (user-defined flat systems with several flat outputs: families/c20_multi.py)
+        if case.get("kind") == "multi":
+            return self.multi.parse_model(case, out)
+        # <<< C20-multi
         s = case["sys"]
         n = s["n"]
         if out.startswith("err "):
@@ -469,6 +526,10 @@ class C20(Family):
         return {"exc": e.split(":")[0], "msg": re.sub(r"[0-9]+", "#", e.split(":", 1)[-1].strip())[:60]}
 
     def compare(self, case, impl, model):
+        # >>> C20-multi (user-defined flat systems with several flat outputs: families/c20_multi.py)
+        if case.get("kind") == "multi":
+            return self.multi.compare(case, impl, model)
+        # <<< C20-multi
         s = case["sys"]
         n = s["n"]
         if "err" in model:
@@ -595,6 +656,10 @@ class C20(Family):
         return worst, where, dscale
 
     def nontrivial(self, case, model):
+        # >>> C20-multi (user-defined flat systems with several flat outputs: families/c20_multi.py)
+        if case.get("kind") == "multi":
+            return self.multi.nontrivial(case, model)
+        # <<< C20-multi
         s = case["sys"]
         if "err" in model or s["n"] < 2:
             return False
@@ -603,6 +668,10 @@ class C20(Family):
         return any(F(v) != 0 for v in data)
 
     def stats(self, case, impl, model):
+        # >>> C20-multi (user-defined flat systems with several flat outputs: families/c20_multi.py)
+        if case.get("kind") == "multi":
+            return self.multi.stats(case, impl, model)
+        # <<< C20-multi
         s = case["sys"]
         st = {"order": s["n"], "outcome": ("err:" + model["err"]) if "err" in model else "ok"}
         if "err" in model and "err" in impl:
@@ -618,6 +687,11 @@ class C20(Family):
 
     # ---- shrinking / search ----------------------------------------------------
     def shrink(self, case):
+        # >>> C20-multi (user-defined flat systems with several flat outputs: families/c20_multi.py)
+        if case.get("kind") == "multi":
+            yield from self.multi.shrink(case)
+            return
+        # <<< C20-multi
         if case.get("p2p"):
             c = dict(case)
             c["p2p"] = None
@@ -658,6 +732,10 @@ class C20(Family):
         yield c
 
     def search(self, rng, case, tier):
+        # >>> C20-multi (user-defined flat systems with several flat outputs: families/c20_multi.py)
+        if case.get("kind") == "multi":
+            return self.multi.search(rng, case, tier)
+        # <<< C20-multi
         return [self.gen_case(rng, tier) for _ in range(200)]
 
 
